@@ -330,6 +330,7 @@ Fixpoint tc_form (g : ctx) (shadow : option name) (pty : option sty) (f : form) 
       end
   (* ------------------------------------------------------------------ x <- new (body); P *)
   | FNew x body k =>
+    tdo _ <- guard (negb (is_provider x shadow)) "you cannot assign self to a new channel";
     let reused := ctx_has g (ident x) in
     let body_fn := free_names body in
     tdo _ <- guard (negb (negb reused && name_in_names x body_fn)) "cannot use the new name in the spawned process";
@@ -343,6 +344,14 @@ Fixpoint tc_form (g : ctx) (shadow : option name) (pty : option sty) (f : form) 
       | None => TErr "function is undefined"
       | Some sg =>
         tdo fty <- unfold_opt D (fs_type sg);
+        tdo _ <- (match nty x with
+                  | None => TOk tt
+                  | Some xt =>
+                    tdo xt1 <- lift (add_missing D xt);
+                    tdo _ <- guard (check_wf D xt1) "invalid type for the new name";
+                    tdo e <- equal_opt D (Some xt1) fty;
+                    if e then TOk tt else match fty with Some _ => TErr "annotation differs from the type the function provides" | None => TPanic "nil in message" end
+                  end);
         tdo _ <- indep_all (map snd gl) fty;
         tdo body' <- tc_form gl (Some x) fty body;
         let gr1 := aset (ident x) fty gr in
@@ -427,6 +436,7 @@ Fixpoint tc_form (g : ctx) (shadow : option name) (pty : option sty) (f : form) 
       let '(ft, g1) := consume_opt from g in
       tdo ft' <- unfold_opt D (match ft with Some t => t | None => None end);
       tdo _ <- guard (match ft with Some _ => true | None => false end) "error in split";
+      tdo _ <- guard (negb (is_provider x shadow || is_provider y shadow)) "you cannot assign self to a new channel";
       tdo _ <- guard (negb (ctx_has g1 (ident x) || ctx_has g1 (ident y))) "variable names already defined";
       tdo _ <- guard (negb (name_equal x y)) "variable names are the same";
       let g2 := aset (ident y) ft' (aset (ident x) ft' g1) in
@@ -579,6 +589,7 @@ with tc_branches_provider (g : ctx) (bs : brs) (seen : list string) (b : branche
     match find_br l bs with
     | None => TErr "branch does not match the type"
     | Some bt =>
+      tdo _ <- guard (negb (ctx_has g (ident pay))) "variable name already defined";
       tdo bt' <- unfold_opt D (Some bt);
       let pay' := set_nty pay bt' in
       tdo _ <- check_pols [pay'];
@@ -597,6 +608,7 @@ with tc_branches_client (g : ctx) (shadow : option name) (pty : option sty) (bs 
     match find_br l bs with
     | None => TErr "case does not match the type"
     | Some bt =>
+      tdo _ <- guard (negb (is_provider pay shadow)) "you cannot assign self to a new channel";
       tdo _ <- guard (negb (ctx_has g (ident pay))) "variable name already defined";
       let g1 := aset (ident pay) (Some bt) g in
       tdo bt' <- unfold_opt D (Some bt);
